@@ -186,9 +186,13 @@ static const char* WKT_POOL[] = {
     // while a segment leaves it; nested frames; a polygon with two holes inside a clip window)
     "POLYGON ((0 0, 10 0, 10 10, 7 10, 7 3, 3 3, 3 10, 0 10, 0 0))", "LINESTRING (1.5 8, 8.5 8)", "MULTILINESTRING ((1.5 8, 8.5 8), (1 9, 9 9))", "LINESTRING (1 3, 5 3)",
     "MULTIPOLYGON (((0 0, 20 0, 20 20, 0 20, 0 0), (2 2, 18 2, 18 18, 2 18, 2 2)), ((4 4, 16 4, 16 16, 4 16, 4 4), (6 6, 14 6, 14 14, 6 14, 6 6)))",
-    "POLYGON ((-5 -5, 30 -5, 30 30, -5 30, -5 -5), (2 2, 4 2, 4 4, 2 4, 2 2), (6 6, 8 6, 8 8, 6 8, 6 6))" };
+    "POLYGON ((-5 -5, 30 -5, 30 30, -5 30, -5 -5), (2 2, 4 2, 4 4, 2 4, 2 2), (6 6, 8 6, 8 8, 6 8, 6 6))",
+    // empty one level below a non-empty parent: an EMPTY hole ring (legal WKT), alone, next to a real hole, inside multi / collection parents
+    "POLYGON ((0 0, 10 0, 10 10, 0 10, 0 0), EMPTY)", "POLYGON ((0 0, 10 0, 10 10, 0 10, 0 0), EMPTY, (2 2, 4 2, 4 4, 2 4, 2 2))", "POLYGON ((0 0, 10 0, 10 10, 0 10, 0 0), (2 2, 4 2, 4 4, 2 4, 2 2), EMPTY)",
+    "MULTIPOLYGON (((0 0, 10 0, 10 10, 0 10, 0 0), EMPTY), ((20 20, 30 20, 30 30, 20 20)))", "GEOMETRYCOLLECTION (POLYGON ((0 0, 4 0, 4 4, 0 0), EMPTY), LINESTRING (1 1, 9 9))",
+    "POLYGON Z ((0 0 1, 10 0 1, 10 10 1, 0 10 1, 0 0 1), EMPTY)" };
 static const int N_WKT = sizeof WKT_POOL / sizeof WKT_POOL[0];
-static const char* WKT_CLASS(int i) { return i < 20 ? "ordinary" : i < 41 ? "empty" : i < 53 ? "nonfinite" : i < 61 ? "invalid" : i < 70 ? "zerolen" : i < 83 ? "curved" : i < 91 ? "huge" : "configured"; }
+static const char* WKT_CLASS(int i) { return i < 20 ? "ordinary" : i < 41 ? "empty" : i < 53 ? "nonfinite" : i < 61 ? "invalid" : i < 70 ? "zerolen" : i < 83 ? "curved" : i < 91 ? "huge" : i < 97 ? "configured" : "emptyhole"; }
 // ---- structured literals, generated (deterministic, not random): all live in the frame [0,100]^2 so that any container / content pair is in
 // an interesting relative position.  Containers: comb polygons (2..5 teeth; 2 teeth = a U), squares with a grid of holes (rows at y = 80, 50, 20),
 // the same holes in a shell much larger than the frame, nested frames.  Contents: lines / strips / point sets whose vertices are strictly inside
